@@ -71,39 +71,41 @@ Proof. vm_compute. repeat split; reflexivity. Qed.
    allocation of that page) and evaluates, per case (capacity, operations, observed outputs), the
    functions of Spec/PStoreObs.v: `ps_model_agrees` (PM: within the discipline `ok_run`, the real
    outputs equal the model's up to object identities) and `ps_spec` (PS: within the discipline,
-   every fetch returned what the cache-less reference map holds).
+   every fetch was answered with an object holding what the cache-less reference map holds - a
+   refusal is a violation -, every allocation with an object holding the content given, every
+   modification and flush with nothing; a modification of a page the caller holds no object for
+   changes nothing, in the reference as in the model and in the Go driver).
    PROVED (Proofs/PStoreOracle.v, through the invariant PInv of the theorems above): the oracle
    accepts the model's own outputs, hence PM-agreement implies PS-acceptance, for every capacity,
-   every operation list and every observation list.
-   Hypothesis `mods_held` (syntactic, on the operation list: a page is modified only after it was
-   fetched or allocated): the oracle's reference applies every HModify, while the model and the Go
-   driver skip an HModify of a page the caller holds no object for; without it the oracle rejects
-   the model (C16_mods_held_needed). The generator of the check allocates every page it names
-   first, so its cases satisfy it. *)
+   every operation list and every observation list. No hypothesis on the case. *)
 From Mkdb Require Import Spec.PStoreObs Proofs.PStoreOracle.
 
 Theorem C16_oracle_accepts_model : forall cap ops,
-  mods_follow_fetch [] ops = true ->
   ps_spec (cap, ops, snd (hrun (ps_init cap) [] ops)) = true.
 Proof. exact oracle_accepts_model. Qed.
 Print Assumptions C16_oracle_accepts_model.
 
 Theorem C16_agreement_implies_acceptance : forall c : pcase,
-  mods_held c = true -> ps_model_agrees c = true -> ps_spec c = true.
+  ps_model_agrees c = true -> ps_spec c = true.
 Proof. exact agreement_implies_acceptance. Qed.
 Print Assumptions C16_agreement_implies_acceptance.
 
-Example C16_mods_held_needed :
+(* a modification of a page that was never fetched or allocated, then a fetch of it: within the
+   discipline; the model reads the all-zero page and the oracle accepts that (an earlier version of
+   the oracle applied the modification to its reference and rejected the model here); an
+   observation in which the modification took effect is rejected *)
+Example C16_unheld_modify_skipped :
   let ops := [HModify 1 5; HFetch 1] in
   let c := (3%nat, ops, snd (hrun (ps_init 3) [] ops)) in
-  in_discipline c = true /\ ps_model_agrees c = true /\ mods_held c = false /\ ps_spec c = false.
+  in_discipline c = true /\ snd (hrun (ps_init 3) [] ops) = [PUnit; PObj 1 0] /\
+  ps_model_agrees c = true /\ ps_spec c = true /\
+  ps_spec (3%nat, ops, [PUnit; PObj 1 5]) = false.
 Proof. vm_compute. repeat split; reflexivity. Qed.
 
 (* non-vacuity: the run of C16_nonvacuous at the caller level (3-page cache, 4 pages, evictions and
    re-reads), observed with other object identities than the model's: within the discipline, the
-   hypothesis holds, the model agrees and the oracle accepts (not through the out-of-discipline
-   escape); and the oracle has teeth: the same observation with one fetched content changed is
-   rejected by both *)
+   model agrees and the oracle accepts (not through the out-of-discipline escape); and the oracle
+   has teeth: the same observation with one fetched content changed is rejected by both *)
 Definition ex_hops : list hop :=
   [HAlloc 1 10; HModify 1 11; HAlloc 2 20; HModify 2 21; HFlush [1; 2];
    HAlloc 3 30; HModify 3 31; HAlloc 4 40; HModify 4 41; HFlush [];
@@ -113,8 +115,22 @@ Definition ex_obs (c2 : N) : list pout :=
    PObj 11 11; PUnit; PObj 12 c2; PObj 13 31; PObj 14 12].
 Example C16_agreement_nonvacuous :
   fst (hrun (ps_init 3) [] ex_hops) = ex_ops ++ [PFetch 1] /\
-  in_discipline (3%nat, ex_hops, ex_obs 21) = true /\ mods_held (3%nat, ex_hops, ex_obs 21) = true /\
+  in_discipline (3%nat, ex_hops, ex_obs 21) = true /\
   ps_model_agrees (3%nat, ex_hops, ex_obs 21) = true /\ ps_spec (3%nat, ex_hops, ex_obs 21) = true /\
-  href_ok [] ex_hops (ex_obs 21) = true /\
+  href_ok [] [] ex_hops (ex_obs 21) = true /\
   ps_model_agrees (3%nat, ex_hops, ex_obs 20) = false /\ ps_spec (3%nat, ex_hops, ex_obs 20) = false.
+Proof. vm_compute. repeat split; reflexivity. Qed.
+
+(* within the discipline a refused fetch, a fetch answered with nothing, a refused allocation, an
+   allocation holding another content and a modification answered with an object are all rejected
+   (an earlier version of the oracle judged the content of answered fetches only) *)
+Definition ex_obs_with (i : nat) (o : pout) : list pout := firstn i (ex_obs 21) ++ o :: skipn (S i) (ex_obs 21).
+Example C16_wrong_kinds_now_rejected :
+  ps_spec (3%nat, ex_hops, ex_obs_with 10 (PObj 11 11)) = true /\
+  map (fun io => ps_spec (3%nat, ex_hops, ex_obs_with (fst io) (snd io)))
+      [(10%nat, PRefused); (12%nat, PUnit); (5%nat, PRefused); (7%nat, PObj 10 41); (1%nat, PObj 1 11);
+       (4%nat, PRefused)] = [false; false; false; false; false; false] /\
+  map (fun io => ps_model_agrees (3%nat, ex_hops, ex_obs_with (fst io) (snd io)))
+      [(10%nat, PRefused); (12%nat, PUnit); (5%nat, PRefused); (7%nat, PObj 10 41); (1%nat, PObj 1 11);
+       (4%nat, PRefused)] = [false; false; false; false; false; false].
 Proof. vm_compute. repeat split; reflexivity. Qed.
